@@ -10,6 +10,7 @@ from . import theory as T
 from . import folds as FO
 from . import lists as LS
 from . import enumth as EN
+from . import solth as SO
 from .values import (SV, Ver, DictVal, SetVal, ListVal, PObj, ItemsView, Assoc, AssignVal, Closure, BoundMethod, ClassRef,
                      BuiltinClass, Builtin, ModuleRef, SuperRef, SeqIter, Unsupported, PathInfeasible, VerifBug,
                      PyExc, is_num, zreal, zint, is_intlike)
@@ -78,6 +79,10 @@ def class_name_of(eng, v):
     if isinstance(v, dict):
         return "dict"
     if isinstance(v, AssignVal):
+        return v.container
+    if isinstance(v, SO.SolVal):
+        if v.view is not None:
+            raise Unsupported("type of a dict view")
         return v.container
     if isinstance(v, LS.ResIter):
         return "list"
@@ -244,6 +249,9 @@ def bi_tuple(eng, args, kwargs, fr):
         r = relabel_genexp(eng, v)
         if r is not None:
             return r
+        r = _mapped_solution(eng, v, "tuple")
+        if r is not None:
+            return r
         return materialize_genexp(eng, v, "tuple")
     if isinstance(v, SeqIter) and v.kind == "sortedkey":
         return v.data
@@ -306,10 +314,29 @@ def relabel_genexp(eng, gen):
     return SV(r, "key")
 
 
+def _mapped_solution(eng, gen, container):
+    """(convert[i] for i in z) over an indexed solution z: the solution with the mapped values"""
+    n, fr = gen.data
+    if len(n.generators) != 1 or n.generators[0].ifs or not isinstance(n.generators[0].target, ast.Name):
+        return None
+    g = n.generators[0]
+    src = eng.eval(g.iter, fr)
+    if not (isinstance(src, SO.SolVal) and (src.view == "values" or (src.view is None and src.container != "dict"))):
+        return None
+    tb = SO.table_of(eng, n.elt, g.target.id, fr)
+    if tb is None:
+        raise Unsupported("comprehension over an indexed solution: element is not a table lookup")
+    return SO.mapped(eng, src, tb[0], tb[1], container)
+
+
 def bi_list(eng, args, kwargs, fr):
     if not args:
         return eng.alloc(ListVal([]))
     (v,) = args
+    if isinstance(v, SeqIter) and v.kind == "genexp":
+        r = _mapped_solution(eng, v, "list")
+        if r is not None:
+            return r
     c = eng.concrete_iter(v)
     if c is not None:
         return eng.alloc(ListVal(c))
@@ -880,6 +907,20 @@ def call_method_builtin(eng, recv, name, args, kwargs, fr):
             eng.facts.add(z3.And(card >= recv.card, card == T.CARD(mem)))
             recv.mem, recv.card = mem, card
             return None
+    if isinstance(recv, SO.SolVal):
+        if recv.container == "dict" and recv.view is None and name in ("values", "items") and not args:
+            return SO.SolVal(recv.container, recv.arr, recv.n, view=name)
+        raise Unsupported("method %s of an indexed solution" % name)
+    if isinstance(recv, str):
+        # methods of a concrete string (class names, attribute names): evaluated by CPython
+        if name in ("lower", "upper", "replace", "startswith", "endswith", "format", "strip") and \
+                all(isinstance(a, (str, int)) for a in args) and not kwargs:
+            return getattr(recv, name)(*args)
+        raise Unsupported("str.%s on these arguments" % name)
+    if isinstance(recv, SV) and recv.t == "cobj":
+        if name == "value" and len(args) == 1 and isinstance(args[0], AssignVal) and args[0].kind in ("bool", "spin"):
+            return SV(EN.CVAL(recv.e), "real")          # the recorded constraint evaluated at the ghost assignment
+        raise Unsupported("method %s of a recorded constraint" % name)
     if isinstance(recv, EN.Groups):
         return EN.groups_method(eng, recv, name, args)
     if isinstance(recv, EN.GroupRef):
@@ -1224,6 +1265,8 @@ def fold_genexp(eng, gen, how, start):
             if how == "any" and t:
                 return True
         return how == "all"
+    if isinstance(src, EN.CList) and how == "any":
+        return EN.any_over_clist(eng, src, n, fr)
     fr.comp_ordinal = eng.static_ordinal(fr, n, ast.GeneratorExp)
     spec = eng.comp_spec(fr, fr.comp_ordinal)
     if isinstance(src, ItemsView) and spec is not None and how == "sum":
